@@ -169,7 +169,7 @@ class TipperSurvey(FEMSurvey, AirborneEMSurvey):
         """Accepted time units. Must be one of "Seconds (s)",
         "Milliseconds (ms)", "Microseconds (us)" or "Nanoseconds (ns)"
         """
-        return self.__UNITS
+        return super().default_units
 
 
 class TipperReceivers(TipperSurvey, Curve):  # pylint: disable=too-many-ancestors
